@@ -152,6 +152,19 @@ class Models:
         return l is r
 
     def equals(self, ip, l, r, node=None):
+        if ip.path.guards and (isinstance(l, SOpt) or isinstance(r, SOpt)):
+            # inside a lazily evaluated element / a filter predicate: optional numbers are compared as one term
+            def parts(v):
+                if isinstance(v, SOpt) and self.isnum(v.val):
+                    return v.isnone, real_term(v.val)
+                if v is None:
+                    return z3.BoolVal(True), sym.rv(0)
+                if self.isnum(v):
+                    return z3.BoolVal(False), real_term(v)
+                return None
+            pl, pr = parts(l), parts(r)
+            if pl is not None and pr is not None:
+                return self.mkbool(z3.If(z3.Or(pl[0], pr[0]), z3.And(pl[0], pr[0]), pl[1] == pr[1]))
         if isinstance(l, SOpt):
             if ip.path.branch(l.isnone, "lhs is None"):
                 return self.equals(ip, None, r, node)
